@@ -176,10 +176,9 @@ PROPS = {
         "runs": [distr("", 320, 12000)],
         "preds": ["C04."],
         "rule": DISTR_RULE + "; C04 compares every destination's credited amount (balance gained + recorded remains) with an independent exact-rational oracle of the configured shares",
-        "partial": ["the independence from the order in which the (non-MAIN) sources are listed is checked against the exact-rational oracle on every run; "
-                    "in Coq: the per-step law, the cumulative drift bound (below one 10^-18 unit per step, never above the exact fraction) and, over whole "
-                    "histories incl. chains of internal accounts, the refinement of the credited-amounts machine (Ledger.a_block) under the hypotheses "
-                    "not-K1, not-K2, not-K4 and no failing sweep"],
+        "partial": ["the whole-history theorems (refinement of the credited-amounts machine Ledger.a_block; independence from the order of the non-MAIN "
+                    "sources, LedgerOrder.v) hold under the hypotheses not-K1, not-K2, not-K4 and no failing sweep; outside them (the known-finding classes, "
+                    "failing sweeps) the per-step laws and the exact-rational oracle of every run apply"],
         "level_text": "Coq theorems: a named share is floor(inflow*share) in 18-digit fixed point between 0 and the inflow; per step every share event, "
                       "the burn and the primary remainder are exactly as configured and the books grow by exactly those amounts (fractions kept); "
                       "crediting one destination touches no other. K3 and K4 refuted by computed witnesses. The implementation's per-destination "
